@@ -32,7 +32,8 @@ RespVecs == VecA \cup VecB \cup VecC
 \* D: one SetCookie with every key x value; E: sequences over a small op menu
 HostileVals == { <<"a">>, <<"b", "=">>, <<"a", ";", " ", "b", "=", "a">>, <<" ">>, <<"\"", "a", "\"">> }
 Menu == { <<k, v>> : k \in { <<"a">>, <<"b">> }, v \in HostileVals }
-ReqVecs == { << <<k, v>> >> : k \in BStrs(N - 1), v \in BStrs(N - 1) } \cup SeqsFromTo(Menu, 2, 3)
+ND == IF N > 3 THEN 2 ELSE N - 1      \* key/value length bound of the single-call request vectors
+ReqVecs == { << <<k, v>> >> : k \in BStrs(ND), v \in BStrs(ND) } \cup SeqsFromTo(Menu, 2, 3)
 
 RECURSIVE Str(_)
 Str(s) == IF s = <<>> THEN "" ELSE s[1] \o Str(Tail(s))
